@@ -96,6 +96,8 @@ type World struct {
 	gnmi  *nbgnmi.Server
 	admin *nbadmin.Server
 
+	calls []*Call // northbound calls in flight
+
 	mu      sync.Mutex
 	arrived []Token // tokens delivered by watchers since the last TakeTokens, in arrival order
 }
@@ -282,6 +284,7 @@ func (w *World) Step(ctrl, id string) StepResult {
 		}
 	}()
 	synctest.Wait()
+	w.ReapCalls()
 	res.Effects, res.Writes = w.fuse.ResetEffects()
 	res.Crashed = w.fuse.Crashed()
 	res.Tokens = append(w.TakeTokens(), res.Tokens...)
